@@ -124,6 +124,155 @@ static OpResult runOp(const Case& c)
         }
         return R;
     }
+    if (op.rfind("st_", 0) == 0) {
+        // engine self-tests: tiny kernels with a known verdict (suffix _ok: race free; _bad: a data race), so that every run of C11
+        // shows the race oracle detecting what it must and excusing what it must
+        const int n = 64;
+        std::vector<double> a(n, 1.0), b(n, 0.0);
+        double acc = 0.0;
+        double* pa = a.data();
+        double* pb = b.data();
+        if (op == "st_disjoint_ok") {
+#pragma omp parallel for
+            for (int i = 0; i < n; i++)
+                pb[i] = 2 * pa[i];
+        }
+        else if (op == "st_neighbour_write_bad") {
+#pragma omp parallel for
+            for (int i = 0; i < n - 1; i++) {
+                pb[i] += pa[i];
+                pb[i + 1] += 0.5 * pa[i]; // the first iteration of the next chunk belongs to another member
+            }
+        }
+        else if (op == "st_nowait_bad") {
+#pragma omp parallel
+            {
+#pragma omp for nowait
+                for (int i = 0; i < n; i++)
+                    pb[i] = pa[i];
+#pragma omp for
+                for (int i = 0; i < n; i++)
+                    pa[n - 1 - i] = pb[i]; // reads what another member's first loop may not have written yet
+            }
+        }
+        else if (op == "st_barrier_ok") {
+#pragma omp parallel
+            {
+#pragma omp for
+                for (int i = 0; i < n; i++)
+                    pb[i] = pa[i];
+#pragma omp for
+                for (int i = 0; i < n; i++)
+                    pa[n - 1 - i] = pb[i];
+            }
+        }
+        else if (op == "st_reduction_ok") {
+#pragma omp parallel for reduction(+ : acc)
+            for (int i = 0; i < n; i++)
+                acc += pa[i] * (i + 1);
+        }
+        else if (op == "st_shared_accumulator_bad") {
+#pragma omp parallel for
+            for (int i = 0; i < n; i++)
+                acc += pa[i] * (i + 1);
+        }
+        else if (op == "st_critical_ok") {
+#pragma omp parallel for
+            for (int i = 0; i < n; i++) {
+#pragma omp critical
+                {
+                    if (pa[i] * (i + 1) > acc)
+                        acc = pa[i] * (i + 1);
+                }
+            }
+        }
+        else if (op == "st_critical_check_outside_bad") {
+#pragma omp parallel for
+            for (int i = 0; i < n; i++) {
+                if (pa[i] * (i + 1) > acc) {
+#pragma omp critical
+                    acc = pa[i] * (i + 1);
+                }
+            }
+        }
+        else if (op == "st_named_critical_ok") {
+#pragma omp parallel for
+            for (int i = 0; i < n; i++) {
+#pragma omp critical(accumulate)
+                acc += pa[i];
+            }
+        }
+        else if (op == "st_two_names_bad") {
+#pragma omp parallel for
+            for (int i = 0; i < n; i++) {
+                if (i % 2) {
+#pragma omp critical(odd)
+                    acc += pa[i];
+                }
+                else {
+#pragma omp critical(even)
+                    acc += pa[i];
+                }
+            }
+        }
+        else if (op == "st_atomic_ok") {
+#pragma omp parallel for
+            for (int i = 0; i < n; i++) {
+#pragma omp atomic
+                acc += pa[i];
+            }
+        }
+        else if (op == "st_single_ok") {
+#pragma omp parallel
+            {
+#pragma omp single
+                acc = 42.0;
+                // implicit barrier
+#pragma omp for
+                for (int i = 0; i < n; i++)
+                    pb[i] = acc + pa[i];
+            }
+        }
+        else if (op == "st_single_nowait_bad") {
+#pragma omp parallel
+            {
+#pragma omp single nowait
+                acc = 42.0;
+#pragma omp for
+                for (int i = 0; i < n; i++)
+                    pb[i] = acc + pa[i];
+            }
+        }
+        else if (op == "st_private_scratch_ok") {
+#pragma omp parallel
+            {
+                std::vector<double> scratch(8, 0.0);
+#pragma omp for
+                for (int i = 0; i < n; i++) {
+                    scratch[i % 8] = pa[i];
+                    pb[i]          = scratch[i % 8] + 1;
+                }
+            }
+        }
+        else if (op == "st_shared_scratch_bad") {
+            std::vector<double> scratch(8, 0.0);
+            double* ps = scratch.data();
+#pragma omp parallel
+            {
+#pragma omp for
+                for (int i = 0; i < n; i++) {
+                    ps[i % 8] = pa[i];
+                    pb[i]     = ps[i % 8] + 1;
+                }
+            }
+        }
+        else
+            throw std::runtime_error("unknown self-test " + op);
+        R.y.insert(R.y.end(), a.begin(), a.end());
+        R.y.insert(R.y.end(), b.begin(), b.end());
+        R.scalars.push_back(acc);
+        return R;
+    }
     if (op == "solver") {
         Cfg k     = Cfg::fromCase(c);
         k.threads = T;
